@@ -90,7 +90,7 @@ def extract_boundary_of_surface(mesh : SurfaceMesh) -> PolyLine :
                 map_v2v[v2] = ind_vertex
                 component[ind_vertex] = ind_component
                 ind_vertex += 1
-                bound.vertices.append(mesh.vertices[v2])
+                bound.vertices.append(mesh.vertices[v2].copy())
             ind_component += 1
 
     # re order edge indexes
@@ -121,7 +121,7 @@ def extract_boundary_of_volume(mesh : VolumeMesh) -> SurfaceMesh :
 
     # re order vertices
     for i,v in enumerate(vertex_set):
-        bound.vertices.append(mesh.vertices[v])
+        bound.vertices.append(mesh.vertices[v].copy())
         map_m2b[v] = i
         map_b2m[i] = v
     # apply ordering to faces
